@@ -299,3 +299,6 @@ def run(ctx):
     ctx.require("redecode_ok", 500)
     ctx.require("cross_ser_agree", 2000)
     ctx.require("cross_des_agree", 2000)
+    # a code base that could not be built (or lost most of its vectors) is a monitor that did not run, not a property that held
+    for base_name, least in (("c_any", 6000), ("cpp14", 6000), ("py", 5000)):
+        ctx.require("executions[%s]" % base_name, least)
